@@ -64,6 +64,7 @@ type evCluster struct {
 	leaders int
 	lost    bool                 // the script lost control of the cluster's timing: it ends
 	driven  map[uint64]*evDriven // by goroutine id: replicateTo calls run by the script (component 102)
+	trail   uint64               // TrailingLogs of every server (0 = the default 100)
 }
 
 // one replicateTo(follower, lastIndex) call run by the script in its own goroutine
@@ -211,7 +212,11 @@ func (c *evCluster) execute(to uint64, cmd interface{}) (interface{}, error) {
 func (c *evCluster) startNode(n *evNode) {
 	n.inst++
 	n.trans = &evTrans{c: c, id: n.id, inst: n.inst, consumer: make(chan raft.RPC, 16)}
-	cf := baseConfig(nodeOpts{id: n.id, trailing: 100, maxAppend: 4, prevoteOff: true})
+	tl := uint64(100)
+	if c.trail != 0 {
+		tl = c.trail - 1
+	}
+	cf := baseConfig(nodeOpts{id: n.id, trailing: tl, maxAppend: 4, prevoteOff: true})
 	n.fsm = &RecFSM{}
 	r, err := raft.NewRaft(cf, n.fsm, n.logs, n.stable, n.snaps, n.trans)
 	if err != nil {
@@ -221,8 +226,11 @@ func (c *evCluster) startNode(n *evNode) {
 	n.wasLdr = false
 }
 
-func newEvCluster(extras []uint64) *evCluster {
-	c := &evCluster{n: len(extras), nodes: map[uint64]*evNode{}, calls: map[[2]uint64]*evCall{}}
+func newEvCluster(extras []uint64) *evCluster { return newEvClusterT(extras, 0) }
+
+// trail = TrailingLogs + 1 (0: the default)
+func newEvClusterT(extras []uint64, trail uint64) *evCluster {
+	c := &evCluster{n: len(extras), nodes: map[uint64]*evNode{}, calls: map[[2]uint64]*evCall{}, trail: trail}
 	var cfg []srv
 	for i := 1; i <= c.n; i++ {
 		cfg = append(cfg, srv{0, uint64(i), uint64(i)})
